@@ -19,7 +19,7 @@ EXTENDS Naturals, Integers, Sequences, FiniteSets, TLC, SequencesExt
 
 ----------------------------------------------------------------------------
 (* Types *)
-Ty(t, a)   == [t |-> t, a |-> a]
+Ty(t, a)   == [t |-> t, a |-> a \o <<>>]
 IntT       == Ty("int", <<>>)
 StrT       == Ty("str", <<>>)
 BoolT      == Ty("bool", <<>>)
@@ -40,6 +40,9 @@ Fmt2       == Ty("fmt2", <<>>)
 Lit0       == Ty("lit0", <<>>)           \* the literal 0 / 1 (constant tuple index)
 Lit1       == Ty("lit1", <<>>)
 Fresh(t)   == Ty("fresh", <<t>>)         \* a list that is a fresh temporary (may be mutated)
+Strict(t)  == Ty("strict", <<t>>)        \* an expression whose OWN type is t (no subsumption): the operand of
+                                         \* `== None`; comparing a non-optional with None is (rightly) reported
+                                         \* by the checker as a comparison that can never hold
 
 TSI == TupT(<<StrT, IntT>>)
 TIS == TupT(<<IntT, StrT>>)
@@ -53,7 +56,7 @@ InU(t) == t \in U
 
 Base(t) == CASE t.t \in {"nz", "idx", "lit0", "lit1"} -> IntT
              [] t.t \in {"numstr", "fmt1", "fmt2"} -> StrT
-             [] t.t = "fresh" -> t.a[1]
+             [] t.t \in {"fresh", "strict"} -> t.a[1]
              [] OTHER -> t
 IsLeafClass(t) == t.t \in {"nz", "idx", "numstr", "fmt1", "fmt2", "lit0", "lit1"}
 
@@ -99,7 +102,9 @@ Judgeable(ty) == /\ ty.t \in {"any", "never", "int", "str", "bool", "none", "flo
 
 ----------------------------------------------------------------------------
 (* Expressions *)
-Ex(k, s, n, a, ty, r) == [k |-> k, s |-> s, n |-> n, a |-> a, ty |-> ty, r |-> r]
+\* (sequences built by [i \in 1..n |-> ..] are lazy in TLC and would be re-evaluated at every access:
+\*  `\o <<>>` makes them concrete once, when the node is built)
+Ex(k, s, n, a, ty, r) == [k |-> k, s |-> s, n |-> n, a |-> a \o <<>>, ty |-> ty, r |-> r]
 Var(name, ty) == Ex("var", name, 0, <<>>, ty, "var")      \* a local / loop variable / binder
 IntLit(n)     == Ex("int", "", n, <<>>, IntT, "lit")
 StrLit(s)     == Ex("str", s, 0, <<>>, StrT, "lit")
@@ -142,8 +147,9 @@ Leaves(t) ==
       [] t = BoolT  -> <<PVar(BoolT, 1), PVar(BoolT, 2), BoolLit(TRUE)>>
       [] t = NoneT  -> <<NoneLit>>
       [] t = RangeT -> <<Ex("call", "range", 0, <<IntLit(3)>>, RangeT, "range")>>
-      [] t.t = "opt"   -> <<PVar(t, 1), NoneLit, PVar(t.a[1], 1)>>
+      [] t.t = "opt"   -> <<PVar(t, 1), PVar(t, 2)>>    \* (own type optional: subsumption only where a rule says so)
       [] t.t = "fresh" -> <<ArgLit(t.a[1], 1)>>
+      [] t.t = "strict" -> <<PVar(t.a[1], 1)>>
       [] OTHER         -> <<PVar(t, 1), PVar(t, 2)>>
 Leaf(t, j) == LET L == Leaves(t) IN L[((j - 1) % Len(L)) + 1]
 
@@ -152,7 +158,7 @@ Leaf(t, j) == LET L == Leaves(t) IN L[((j - 1) % Len(L)) + 1]
    over the universe U.  k/s select the concrete syntax (rendered by the driver), args are
    types or leaf classes, res the result type, r the rule name used to classify findings,
    f: the result is a fresh list. *)
-Sg(k, s, args, res, r, f) == [k |-> k, s |-> s, args |-> args, res |-> res, r |-> r, f |-> f]
+Sg(k, s, args, res, r, f) == [k |-> k, s |-> s, args |-> args \o <<>>, res |-> res, r |-> r, f |-> f]
 
 CmpEqTs  == {IntT, StrT, BoolT, ListT(IntT), TSI, DictT(StrT, IntT), ListT(StrT)}
 CmpOrdTs == {IntT, StrT, ListT(IntT), TSI}
@@ -169,11 +175,12 @@ SigsArith ==
           Sg("bin", "*", <<IntT, StrT>>, StrT, "int*str", FALSE)}
     \cup {Sg("bin", "+", <<l, l>>, l, "list+list", TRUE) : l \in ListTs}
     \cup {Sg("bin", "*", <<l, IntT>>, l, "list*int", TRUE) : l \in ListTs}
+    \cup {Sg("bin", "*", <<IntT, l>>, l, "int*list", TRUE) : l \in ListTs}
     \cup {Sg("bin", "|", <<d, d>>, d, "dict|dict", FALSE) : d \in DictTs}
 
 SigsCmp ==
     {Sg("bin", op, <<t, t>>, BoolT, "eq:" \o t.t, FALSE) : op \in {"==", "!="}, t \in CmpEqTs}
-    \cup {Sg("bin", op, <<o, NoneT>>, BoolT, "eq:opt-none", FALSE) : op \in {"==", "!="}, o \in OptTs}
+    \cup {Sg("bin", op, <<Strict(o), NoneT>>, BoolT, "eq:opt-none", FALSE) : op \in {"==", "!="}, o \in OptTs}
     \cup {Sg("bin", op, <<t, t>>, BoolT, "ord:" \o t.t, FALSE) : op \in {"<", "<=", ">", ">="}, t \in CmpOrdTs}
     \cup {Sg("bin", op, <<l.a[1], l>>, BoolT, "in:list", FALSE) : op \in {"in", "not in"}, l \in ListTs}
     \cup {Sg("bin", op, <<d.a[1], d>>, BoolT, "in:dict", FALSE) : op \in {"in", "not in"}, d \in DictTs}
@@ -235,13 +242,14 @@ SigsList ==
     \cup {Sg("slice", ":hi", <<l, IntT>>, l, "slice:list", TRUE) : l \in ListTs}
     \cup {Sg("slice", "::st", <<l, NZ>>, l, "slice:list", TRUE) : l \in ListTs}
     \cup {Sg("meth", "index", <<l, l.a[1]>>, IntT, "list.index", FALSE) : l \in ListTs \ {ListT(OptT(IntT))}}
-    \cup {Sg("meth", "count", <<l, l.a[1]>>, IntT, "list.count", FALSE) : l \in ListTs}
     \cup {Sg("meth", "pop", <<Fresh(l)>>, l.a[1], "list.pop", FALSE) : l \in ListTs}
     \cup {Sg("meth", "pop", <<Fresh(l), Lit0>>, l.a[1], "list.pop", FALSE) : l \in ListTs}
     \cup {Sg("meth", "append", <<Fresh(l), l.a[1]>>, NoneT, "list.append", FALSE) : l \in ListTs}
     \cup {Sg("list", "", <<>>, l, "listlit", TRUE) : l \in ListTs}
     \cup {Sg("list", "", <<l.a[1]>>, l, "listlit", TRUE) : l \in ListTs}
     \cup {Sg("list", "", <<l.a[1], l.a[1]>>, l, "listlit", TRUE) : l \in ListTs}
+    \cup {Sg("list", "", <<IntT, NoneT>>, ListT(OptT(IntT)), "listlit", TRUE),
+          Sg("list", "", <<NoneT, IntT, OptT(IntT)>>, ListT(OptT(IntT)), "listlit", TRUE)}
 
 SigsDictTup ==
     {Sg("index", "", <<d, d.a[1]>>, d.a[2], "index:dict", FALSE) : d \in DictTs}
@@ -282,10 +290,12 @@ SigSeq == SetToSeq(Sigs)
 Rules == {s.r : s \in Sigs}
 
 ArgTs == U \cup {NZ, Idx, NumStr, Fmt1, Fmt2, Lit0, Lit1, RangeT} \cup {Fresh(l) : l \in ListTs}
+         \cup {Strict(o) : o \in OptTs}
 \* producers of a (base) type; of a fresh list
 Producers == [t \in ArgTs |->
                 IF IsLeafClass(t) THEN <<>>
                 ELSE IF t.t = "fresh" THEN SelectSeq(SigSeq, LAMBDA s : s.res = t.a[1] /\ s.f)
+                ELSE IF t.t = "strict" THEN SelectSeq(SigSeq, LAMBDA s : s.res = t.a[1])
                 ELSE SelectSeq(SigSeq, LAMBDA s : s.res = t)]
 
 App(s, ch) == Ex(s.k, s.s, 0, ch, s.res, s.r)
@@ -293,13 +303,13 @@ App(s, ch) == Ex(s.k, s.s, 0, ch, s.res, s.r)
 ----------------------------------------------------------------------------
 (* Generation, depth 1 and one-hole contexts *)
 CanonArgs(s) == [j \in 1..Len(s.args) |-> Leaf(s.args[j], j)]
-Gen1Of(t) == [i \in 1..Len(Producers[t]) |-> App(Producers[t][i], CanonArgs(Producers[t][i]))]
+Gen1Of(t) == LET P == Producers[t] IN [i \in 1..Len(P) |-> App(P[i], CanonArgs(P[i]))] \o <<>>
 Gen1 == [t \in ArgTs |-> Gen1Of(t)]
 
 \* s applied to canonical leaves except position i, which holds e
 AppWith(s, i, e) == App(s, [j \in 1..Len(s.args) |-> IF j = i THEN e ELSE Leaf(s.args[j], j)])
 \* positions of s that accept an arbitrary expression of (base) type t
-HolePos(s, t) == {i \in 1..Len(s.args) : ~IsLeafClass(s.args[i]) /\ s.args[i].t # "fresh" /\ s.args[i] = t}
+HolePos(s, t) == {i \in 1..Len(s.args) : s.args[i] = t \/ s.args[i] = Strict(t)}
 \* all depth-1 contexts around a hole of type t: <<sig index, position>>
 CtxOf(t) == SetToSeq({<<k, i>> \in (1..Len(SigSeq)) \X (1..4) : i \in HolePos(SigSeq[k], t)})
 Ctx == [t \in U \cup {RangeT} |-> CtxOf(t)]
@@ -312,7 +322,7 @@ Plug(c, e) == AppWith(SigSeq[c[1]], c[2], e)
 BinderOf(t) == Var("c" \o Code(t), t)
 LoopVarOf(t) == Var("f" \o Code(t), t)
 \* expressions of any type built from ONE use of the variable v (and canonical leaves)
-BodiesOver(v) == <<v>> \o [i \in 1..Len(Ctx[v.ty]) |-> Plug(Ctx[v.ty][i], v)]
+BodiesOver(v) == LET C == Ctx[v.ty] IN <<v>> \o [i \in 1..Len(C) |-> Plug(C[i], v)]
 LComp(body, binder, iter)        == Ex("lcomp", binder.s, 0, <<body, iter>>, ListT(body.ty), "lcomp")
 LCompIf(body, binder, iter, c)   == Ex("lcomp", binder.s, 1, <<body, iter, c>>, ListT(body.ty), "lcomp-if")
 DComp(k, v, binder, iter)        == Ex("dcomp", binder.s, 0, <<k, v, iter>>, DictT(k.ty, v.ty), "dcomp")
@@ -364,11 +374,12 @@ WT(G, e) ==
       [] OTHER ->
             (/\ \A i \in 1..Len(e.a) : WT(G, e.a[i])
              /\ \E s \in Sigs : /\ s.k = e.k /\ s.s = e.s /\ s.res = e.ty /\ Len(s.args) = Len(e.a)
-                                /\ \A i \in 1..Len(e.a) : Sub(e.a[i].ty, Base(s.args[i])))
+                                /\ \A i \in 1..Len(e.a) : IF s.args[i].t = "strict" THEN e.a[i].ty = s.args[i].a[1]
+                                                           ELSE Sub(e.a[i].ty, Base(s.args[i])))
 
 ----------------------------------------------------------------------------
 (* Statements and defs *)
-St(k, s, o, e, b, c) == [k |-> k, s |-> s, o |-> o, e |-> e, b |-> b, c |-> c]
+St(k, s, o, e, b, c) == [k |-> k, s |-> s, o |-> o, e |-> e \o <<>>, b |-> b \o <<>>, c |-> c \o <<>>]
 Ret(e)        == St("return", "", "", <<e>>, <<>>, <<>>)
 Asg(n, e)     == St("assign", n, "", <<e>>, <<>>, <<>>)
 Aug(n, op, e) == St("aug", n, op, <<e>>, <<>>, <<>>)
@@ -380,7 +391,10 @@ Pass          == St("pass", "", "", <<>>, <<>>, <<>>)
 
 Bind(G, name, ty) == <<[name |-> name, ty |-> ty]>> \o G
 HasName(G, name) == \E i \in 1..Len(G) : G[i].name = name
-SameEnv(G1, G2) == {G1[i] : i \in 1..Len(G1)} = {G2[i] : i \in 1..Len(G2)}
+\* environments after the two branches of an if: same names, types equal up to subsumption (join)
+SameEnv(G1, G2) == Len(G1) = Len(G2) /\ \A i \in 1..Len(G1) :
+                      G1[i].name = G2[i].name /\ (Sub(G1[i].ty, G2[i].ty) \/ Sub(G2[i].ty, G1[i].ty))
+JoinEnv(G1, G2) == [i \in 1..Len(G1) |-> IF Sub(G1[i].ty, G2[i].ty) THEN G2[i] ELSE G1[i]] \o <<>>
 AugOK(t, op, e) == \/ t = IntT /\ op \in {"+=", "-=", "*=", "//=", "%="} /\ e.ty = IntT
                    \/ t = StrT /\ op = "+=" /\ e.ty = StrT
                    \/ t = StrT /\ op = "*=" /\ e.ty = IntT
@@ -401,7 +415,7 @@ StWT(G, st, ret) ==
       [] st.k = "if"     -> (LET r1 == StsWT(G, st.b, ret)  r2 == StsWT(G, st.c, ret) IN
                              [ok |-> WT(G, st.e[1]) /\ st.e[1].ty = BoolT /\ r1.ok /\ r2.ok
                                      /\ (Len(st.c) > 0 => SameEnv(r1.g, r2.g)),
-                              g |-> IF Len(st.c) > 0 THEN r1.g ELSE G])
+                              g |-> IF Len(st.c) > 0 /\ Len(r1.g) = Len(r2.g) THEN JoinEnv(r1.g, r2.g) ELSE G])
       [] st.k = "for"    -> (LET it == st.e[1].ty IN
                              [ok |-> WT(G, st.e[1]) /\ it \in IterTs /\ ~HasName(G, st.s)
                                      /\ StsWT(Bind(G, st.s, ElemOfIter(it)), st.b, ret).ok,
@@ -424,7 +438,7 @@ RECURSIVE PVarsS(_)
 PVarsS(sts) == UNION {UNION {PVarsE(sts[i].e[j]) : j \in 1..Len(sts[i].e)}
                       \cup PVarsS(sts[i].b) \cup PVarsS(sts[i].c) : i \in 1..Len(sts)}
 
-Def(name, ps, ret, ann, body, tag) == [name |-> name, ps |-> ps, ret |-> ret, ann |-> ann, body |-> body, tag |-> tag]
+Def(name, ps, ret, ann, body, tag) == [name |-> name, ps |-> ps \o <<>>, ret |-> ret, ann |-> ann, body |-> body \o <<>>, tag |-> tag]
 MkDef(name, ret, body, tag) == Def(name, SetToSeq(PVarsS(body)), ret, "all", body, tag)
 EndsInReturn(body) == Len(body) > 0 /\ body[Len(body)].k = "return"
 DefWT(d) == /\ EndsInReturn(d.body)
@@ -439,7 +453,7 @@ HelperBody(h) ==
       [] h.tpl = "pair" -> <<Ret(Ex("tuple", "", 0, <<a, b>>, h.ret, "tuplit"))>>
       [] h.tpl = "head" -> <<Ret(Ex("index", "", 0, <<a, IntLit(0)>>, h.ret, "index:list"))>>
       [] OTHER -> <<>>
-HelperDefs == [i \in HelperIdx |-> Def(Helpers[i].name, Helpers[i].ps, Helpers[i].ret, Helpers[i].ann,
+HelperDefs == <<>> \o [i \in HelperIdx |-> Def(Helpers[i].name, Helpers[i].ps, Helpers[i].ret, Helpers[i].ann,
                                        HelperBody(Helpers[i]), "helper")]
 
 (* Body templates *)
@@ -492,12 +506,14 @@ LitBinds == <<
     BindR("c_i", IntT, IntLit(5), "lit"),
     BindR("c_l", ListT(IntT), ArgLit(ListT(IntT), 1), "lit") >>
 
-Module(id, gdefs, exprs, tag) ==
-    LET calls == [j \in 1..Len(gdefs) |-> CallOf(gdefs[j], "r" \o ToString(j))]
+Module(id, gdefs0, exprs0, tag) ==
+    LET gdefs == gdefs0 \o <<>>
+        exprs == exprs0 \o <<>>
+        calls == [j \in 1..Len(gdefs) |-> CallOf(gdefs[j], "r" \o ToString(j))]
         ebinds == [j \in 1..Len(exprs) |-> BindR("m" \o ToString(j), exprs[j].ty, exprs[j], "expr")]
         gl == SetToSeq(UNION {PVarsE(exprs[j]) : j \in 1..Len(exprs)}) IN
     [id |-> id, tag |-> tag, ill |-> FALSE, mut |-> "",
-     globals |-> [i \in 1..Len(gl) |-> GlobalOf(gl[i])],
+     globals |-> [i \in 1..Len(gl) |-> GlobalOf(gl[i])] \o <<>>,
      defs |-> HelperDefs \o gdefs,
      binds |-> LitBinds \o calls \o ebinds]
 
@@ -506,7 +522,7 @@ FnTyOf(d) == FnT([i \in 1..Len(d.ps) |-> d.ps[i].ty], d.ret)
 ModuleWT(m) ==
     LET G0 == [i \in 1..Len(m.globals) |-> [name |-> m.globals[i].name, ty |-> m.globals[i].ty]]
         GL == G0 \o <<[name |-> "c_s", ty |-> StrT]>> IN
-    /\ \A i \in 1..Len(m.globals) : WT(<<>>, m.globals[i].e) /\ m.globals[i].e.ty = m.globals[i].ty
+    /\ \A i \in 1..Len(m.globals) : WT(<<>>, m.globals[i].e) /\ Sub(m.globals[i].e.ty, m.globals[i].ty)
     /\ \A i \in 1..Len(m.defs) : DefWT(m.defs[i])
     /\ \A i \in HelperIdx : m.defs[i] = HelperDefs[i]
     /\ \A i \in 1..Len(m.binds) :
@@ -532,9 +548,9 @@ MutCall(b, x) ==
 Mutant(m, x) ==
     LET nh == Len(HelperDefs)
         m2 == [m EXCEPT
-                 !.defs = [i \in 1..Len(m.defs) |-> IF i > nh /\ (i + x) % 3 # 0 THEN MutDef(m.defs[i], x + i) ELSE m.defs[i]],
+                 !.defs = [i \in 1..Len(m.defs) |-> IF i > nh /\ (i + x) % 3 # 0 THEN MutDef(m.defs[i], x + i) ELSE m.defs[i]] \o <<>>,
                  !.binds = [i \in 1..Len(m.binds) |-> IF m.binds[i].kind = "call" /\ (i + x) % 3 = 0
-                                                     THEN MutCall(m.binds[i], x + i) ELSE m.binds[i]],
+                                                     THEN MutCall(m.binds[i], x + i) ELSE m.binds[i]] \o <<>>,
                  !.mut = "mutant"] IN
     [m2 EXCEPT !.ill = ~ModuleWT(m2)]
 
@@ -557,17 +573,17 @@ RandE(t, d, x) ==
     ELSE LET s == Pick(P, x) IN
          App(s, [i \in 1..Len(s.args) |-> RandE(s.args[i], d - 1, Rn(x + 7919 * i))])
 
+RB(ret, body) == [ret |-> ret, body |-> body]
 RandBody(t, d, x) ==
     LET e == RandE(t, d, Rn(x)) IN
-    CASE x % 6 = 0 -> B_Ret(e)
-      [] x % 6 = 1 -> B_Local(e)
-      [] x % 6 = 2 -> B_IfAssign(RandE(BoolT, d - 1, Rn(x + 1)), e, RandE(t, d - 1, Rn(x + 2)))
-      [] x % 6 = 3 -> B_IfReturn(RandE(BoolT, d - 1, Rn(x + 1)), e, RandE(t, d - 1, Rn(x + 2)))
-      [] x % 6 = 4 -> (IF Len(Ctx[t]) > 0 /\ Pick(Ctx[t], x)[1] \in {k \in 1..Len(SigSeq) : SigSeq[k].res \in U}
-                       THEN B_Two(e, Pick(Ctx[t], x)) ELSE B_Local(e))
-      [] OTHER     -> B_IfElseReturn(RandE(BoolT, d - 1, Rn(x + 1)), e, RandE(t, d - 1, Rn(x + 2)))
-BodyRet(body) == body[Len(body)].e[1].ty
+    CASE x % 6 = 0 -> RB(t, B_Ret(e))
+      [] x % 6 = 1 -> RB(t, B_Local(e))
+      [] x % 6 = 2 -> RB(t, <<If(RandE(BoolT, d - 1, Rn(x + 1)), <<Asg("v1", e)>>, <<Asg("v1", RandE(t, d - 1, Rn(x + 2)))>>), Ret(V1(t))>>)
+      [] x % 6 = 3 -> RB(t, B_IfReturn(RandE(BoolT, d - 1, Rn(x + 1)), e, RandE(t, d - 1, Rn(x + 2))))
+      [] x % 6 = 4 -> (LET C == SelectSeq(Ctx[t], LAMBDA c : SigSeq[c[1]].res \in U) IN
+                       IF Len(C) > 0 /\ e.ty = t THEN RB(SigSeq[Pick(C, x)[1]].res, B_Two(e, Pick(C, x))) ELSE RB(t, B_Local(e)))
+      [] OTHER     -> RB(t, B_IfElseReturn(RandE(BoolT, d - 1, Rn(x + 1)), e, RandE(t, d - 1, Rn(x + 2))))
 RandDef(name, d, x) ==
-    LET t == Pick(UT, x)  body == RandBody(t, d, Rn(x + 5)) IN MkDef(name, BodyRet(body), body, "rand")
+    LET t == Pick(UT, x)  rb == RandBody(t, d, Rn(x + 5)) IN MkDef(name, rb.ret, rb.body, "rand")
 
 =============================================================================
